@@ -1155,7 +1155,7 @@ def run(ctx):
                 _kap = max(_retained_kappa(_Xs, a1), _retained_kappa(_Xs, 30.0 * a1))
             except Exception:  # noqa
                 _kap = float("inf")
-            mono_tol = 1e-3 + 1024 * EPS * _kap
+            mono_tol = 1e-3 + 64 * EPS * _kap
             stats["small_alpha_mono_tol_max"] = max(stats.get("small_alpha_mono_tol_max", 0.0), min(mono_tol, 1e9))
             if mono_tol >= 0.5:
                 stats["small_alpha_mono_skipped_illconditioned"] = stats.get("small_alpha_mono_skipped_illconditioned", 0) + 1
